@@ -77,6 +77,7 @@ package cdcn
 //@   nopanic
 //@ iface ScannerClassLike.Make
 //@   nopanic
+//@   requires tokens != nil
 
 //@ func (*parser_).formatError
 //@   props C12 C19
@@ -294,6 +295,13 @@ package cdcn
 //@   invariant[C12] 0 <= this.first_ && this.first_ <= this.next_ && this.next_ <= len(this.runes_) && this.line_ >= 1 && this.line_ <= 1 + this.next_ && this.tokens_ != nil
 //@   hypothesis nonnilq(this.tokens_)
 
+// the constructor establishes the cursor invariant before it hands the scanner to its goroutine (spawn-site obligations)
+//@ func (*scannerClass_).Make
+//@   props C12 C19
+//@   safe
+//@   implements ScannerClassLike.Make
+//@   ensures[C12] fresh(result) && result != nil
+
 //@ func (*scanner_).indexOfLastEOL
 //@   props C12 C19
 //@   safe
@@ -367,6 +375,20 @@ package cdcn
 
 //@ type *formatter_
 //@   invariant[C10] 0 <= this.depth_ && this.depth_ <= this.maximum_
+
+// constructors establish the depth invariant. The class object is allocated by the package initialiser (not a
+// function under contract), so "its default maximum is not negative" stays a hypothesis here (it is 8 in the source).
+//@ type *formatterClass_
+//@   hypothesis this.defaultMaximum_ >= 0
+//@ func (*formatterClass_).Make
+//@   props C10 C19
+//@   implements FormatterClassLike.Make
+//@   ensures[C10] inv(formatter_, result)
+//@ func (*formatterClass_).MakeWithMaximum
+//@   props C10 C19
+//@   nopanic
+//@   ensures fresh(result) && result != nil
+//@   ensures[C10] inv(formatter_, result)
 
 //@ func (*formatter_).appendString
 //@   props C10 C19
